@@ -10,6 +10,9 @@ from ..core import AnalysisError, FUNC, call_attr, calls_in, const, dotted, is_c
 from .c01 import field_rules
 
 EXPLANATION = [
+    'C18.sdp-containment: (shared with C17) DataElementParser records the end of the sequence being parsed, refuses an element that ends past it, and puts the outer bound back on every exit of the nested parse (path rule): an empty nested sequence does not leave a stale, too small bound for the siblings that follow.',
+    'C18.offset-contract: no field parser with the (data, offset) -> (new_offset, value) contract parses from a slice data[offset:] at 0 and returns the resulting offset without adding the base: offsets stay absolute, so multi-entry lists parse entry after entry.',
+    'C18.open-enum-pure: OpenIntEnum._missing_ (behind every open enum field of the codecs) builds the pseudo-member from (cls, value) only: it reads no module-level container and writes nothing on the class, so a parse result does not depend on what was parsed earlier in the process.',
     'C18.wire-fields-init: every dataclass field that carries wire metadata is a constructor argument (no init=False): parsers build objects with cls(**fields) and serialisers read the instance dict.',
     'C18.class-identity: no packet class registered by a decorator inherits from another registered class without stating its own code (the registering decorators derive code and name only when the class does not have them yet, so the inherited ones would be used and the parent replaced in the table).',
     'C18.bytes-of-number: no single-argument bytes() call is applied to a flag (an attribute or parameter declared bool, a comparison, a boolean expression): bytes(True) is one zero byte, not the byte 0x01.',
@@ -803,7 +806,70 @@ def wire_fields_init_rule(ctx):
     wire_fields_init(ctx, 'C18.wire-fields-init', ['bumble.l2cap', 'bumble.att', 'bumble.smp', 'bumble.sdp', 'bumble.avdtp', 'bumble.avrcp', 'bumble.lmp'])
 
 
+def open_enum_pure(ctx):
+    """"whatever has been parsed or constructed earlier in the same process": the pseudo-member an open enum makes for an
+    unlisted value depends on (class, value) only.  `_missing_` builds it afresh and touches no state outside its
+    arguments -- a module-level memo keyed by the display name would hand ATT's ErrorCode[0x80] to SMP's ErrorCode."""
+    R, p = ctx.r, ctx.p
+    rule = 'C18.open-enum-pure'
+    n = 0
+    for q in ('bumble.utils.OpenIntEnum._missing_', 'bumble.hci.SpecableEnum._missing_', 'bumble.utils.CompatibleIntFlag._missing_'):
+        fn = p.find(q)
+        if fn is None:
+            continue
+        n += 1
+        params = {a.arg for a in fn.args.args}
+        local = {t.id for x in walk_local(fn) for t in ast.walk(x) if isinstance(t, ast.Name) and isinstance(t.ctx, ast.Store)}
+        m = p.modules.get(q.rsplit('.', 2)[0])
+        module_state = set()
+        if m is not None:
+            for st in m.tree.body:
+                tg = st.targets if isinstance(st, ast.Assign) else [st.target] if isinstance(st, ast.AnnAssign) else []
+                if isinstance(getattr(st, 'value', None), (ast.Dict, ast.List, ast.Set, ast.DictComp, ast.ListComp)) or (isinstance(getattr(st, 'value', None), ast.Call) and (dotted(st.value.func) or '').split('.')[-1] in ('dict', 'list', 'set', 'defaultdict', 'WeakValueDictionary', 'OrderedDict')):
+                    module_state |= {t.id for t in tg if isinstance(t, ast.Name)}
+        used = {x.id for x in walk_local(fn) if isinstance(x, ast.Name) and isinstance(x.ctx, ast.Load)} - params - local
+        leaks = sorted(used & module_state) + [norm(x) for x in walk_local(fn) if isinstance(x, ast.Attribute) and isinstance(x.ctx, ast.Store) and dotted(x.value) == 'cls']
+        R.check(not leaks, rule, q, 'builds the pseudo-member from its arguments only', f'_missing_ reads / writes state outside its arguments ({leaks}): what a value parses to depends on what was parsed before (same-named enums of different protocols collide)', p.loc(fn))
+    R.check(n >= 1, rule, 'open enums | _missing_', f'{n} implementations examined', 'OpenIntEnum._missing_ not found')
+
+
+def offset_contract(ctx):
+    """Field parsers have the contract (data, offset) -> (new_offset, value) with offsets into the *same* buffer: the caller
+    computes the field size as new_offset - offset.  A parser that slices the buffer and parses from 0 must add the base
+    back; handing on the relative offset makes every following list entry start at the wrong place."""
+    R, p = ctx.r, ctx.p
+    rule = 'C18.offset-contract'
+    n = 0
+    for mn in ('bumble.hci', 'bumble.avrcp', 'bumble.avdtp', 'bumble.l2cap', 'bumble.att', 'bumble.sdp'):
+        m = p.modules.get(mn)
+        if m is None:
+            continue
+        for fn in [x for x in ast.walk(m.tree) if isinstance(x, FUNC)]:
+            names = [a.arg for a in fn.args.args]
+            if 'data' not in names or 'offset' not in names:
+                continue
+            rets = [r for r in walk_local(fn) if isinstance(r, ast.Return) and isinstance(r.value, ast.Tuple) and len(r.value.elts) == 2]
+            if not rets:
+                continue
+            n += 1
+            rebased = [c for c in calls_in(fn) if c.args and isinstance(c.args[0], ast.Subscript) and dotted(c.args[0].value) == 'data' and isinstance(c.args[0].slice, ast.Slice) and c.args[0].slice.lower is not None and norm(c.args[0].slice.lower) == 'offset' and any(isinstance(a, ast.Constant) and a.value == 0 for a in c.args[1:])]
+            if not rebased:
+                continue
+            # the offset that comes back from such a call is relative: a returned offset must add the base
+            ok = all(any(isinstance(x, ast.BinOp) and isinstance(x.op, ast.Add) for x in ast.walk(r.value.elts[0])) for r in rets)
+            R.check(ok, rule, f'{p.qual_of(fn)}', 'adds the base back to the relative offset', f'{fn.name} parses from a slice `data[offset:]` at 0 and returns the offset it gets back unchanged: that offset is relative to the slice, the caller takes it as absolute, so the second and later entries of a list are parsed from the wrong position', p.loc(fn))
+    R.check(n >= 5, rule, 'codec modules | (data, offset) field parsers', f'{n} parsers examined, none returns a slice-relative offset', f'only {n} parsers found')
+
+
+def sdp_containment_rule(ctx):
+    from .c17 import sdp_containment
+    sdp_containment(ctx, 'C18.sdp-containment')
+
+
 RULES = [
+    ('C18.sdp-containment', sdp_containment_rule),
+    ('C18.offset-contract', offset_contract),
+    ('C18.open-enum-pure', open_enum_pure),
     ('C18.wire-fields-init', wire_fields_init_rule),
     ('C18.class-identity', class_identity_rule),
     ('C18.bytes-of-number', bytes_of_number_rule),
